@@ -250,6 +250,10 @@ def r14_4(ctx, R):
                     det += " = capacity of an EMPTY map: every vacant slot is queued"
             ctx.ob("R14.4", b, "mark-all-loop-only-over-occupied-slots@%s" % _site_label(b, sbb), ok, b.loc(sbb), det)
     ctx.floor("R14.4", "mark-all-loops", m, 1)
+    import c02
+    c02.r2_2(ctx, R)
+    ctx.rule("R2.2", "see C02 R2.2 (shared): slots are vacated only by callers of the drain (which has just dequeued that slot's entry) "
+                     "-- a bulk clear would leave stale entries queued, and every 61 of them cost a self-wake")
     import c07
     c07.r7_6(ctx, R)
     ctx.rule("R7.6", "see C07 R7.6 (shared): the slot map's FromIterator builds a full map")
